@@ -6,7 +6,7 @@ TECH = "bounded symbolic execution of the real go/ssa of /repo (symgo) + SMT (z3
 NOTES = {
  "C18": " C18 specifically: only the ROS 1 bag half is decided; the ROS 2 db3 half (database/sql, cgo SQLite, file system) cannot be encoded and is not claimed.",
  "C19": " C19 specifically: definition texts are generated from symbolic selectors (solver case split), not arbitrary bytes; the regexp is executed natively on concrete lines.",
- "C13": " C13 specifically: only the map-order clause is decided; the schedule/CPU/concurrency clause is outside what this technique can reach and is not claimed.",
+ "C13": " C13 specifically: the map-order clause is decided, and isolation between two Writer instances under interleavings at sink-write / API-call granularity; independence from CPU count and from preemptive goroutine schedules (instruction-level races) is outside what this technique can reach and is not claimed.",
 }
 NOTE = ("trusted: go/packages+go/ssa lowering (x/tools v0.29.0), the symgo interpreter and its stubs (DESIGN.md §2.5: fmt/errors opaque, crc32 uninterpreted fold, "
         "sort as insertion sort over the real less, sync no-ops), z3 4.8.12 and cvc5 1.0 (any unknown/error = inconclusive, reported), go test for native replay. "
@@ -21,7 +21,7 @@ CHECKS = {
  "C08": ("for every log time (64 bit), every string/payload byte and the symbolic Skip* flags on the enumerated templates and multi-chunk files (incl. chunks that hold no message), the solver shows that Writer.Statistics, the statistics record and Info.Statistics equal the aggregates of what was written, that chunk index time ranges are exact, and that Info lists every channel, schema, chunk, attachment index and metadata index the configuration keeps", "DESIGN.md §4 C08"),
  "C07": ("with every byte of one chunk's stored payload replaced by a fresh symbolic byte at once (any alteration that keeps the length), a validating lexer is shown to return the records before the damaged chunk unchanged and then an error or an invalid-chunk token, never a record of the damaged chunk; with an attachment's CRC-covered bytes replaced likewise, computed and stored attachment CRC are shown to differ. Under the stated ideal-checksum assumption", "DESIGN.md §4 C07"),
  "C09": ("for every cut position (symbolic, the whole file covered by 16-byte cells) and every field value of the enumerated files, the solver shows that the lexer and the non-indexed iterator return a content-equal prefix of the uncut read, end with EOF or an error, never panic, and return every message of every chunk that lies completely before the cut", "DESIGN.md §4 C09"),
- "C13": ("DECIDED PART ONLY (independence from map iteration and insertion order): for every permutation of every range over a map inside the writer and everything it calls, and every value of the symbolic map keys/values, the output bytes equal those of a fixed-order reference run. NOT decided: independence from CPU count, other goroutines and concurrent instances, race freedom (no scheduler model; see level_note)", "DESIGN.md §4 C13"),
+ "C13": ("DECIDED PART ONLY (independence from map iteration and insertion order): for every permutation of every range over a map inside the writer and everything it calls, and every value of the symbolic map keys/values, the output bytes equal those of a fixed-order reference run; and two Writer instances interleaved at every sink write (symbolic index) or at every API call each produce the bytes they produce alone. NOT decided: independence from CPU count and preemptive goroutine schedules, race freedom (no scheduler model; see level_note)", "DESIGN.md §4 C13"),
  "C14": ("for every index of the failing destination write (symbolic), every accepted byte count of that write up to the stated bound, sticky or transient, the solver shows that the API call during which the write failed returns a non-nil error, that no call panics and that the accepted bytes are a prefix of the fault-free output; and that an attachment source failing at any position or declaring any wrong size (64-bit symbolic) makes WriteAttachment return an error", "DESIGN.md §4 C14"),
  "C15": ("for one short read at any read call (symbolic index and size), for 1/2/5-byte reads and for data delivered together with EOF, lexer, non-indexed and indexed iterators are shown to return exactly the plain read; for a sticky I/O error at any byte position (symbolic, whole file covered by cells) the records returned are a content-equal prefix and the terminal error is non-nil and not io.EOF", "DESIGN.md §4 C15"),
  "C20": ("for every assignment of 64-bit log times to multi-chunk files (every overlap pattern of the chunk ranges) the solver shows that after every step of an index-based read the number of decompressed chunk buffers held is at most the overlap depth of the ranges (1 in file order); a validating lexer keeps one chunk buffer of at most twice the largest chunk and a non-validating one none; attachments of the enumerated sizes stream through writer and lexer with no single library allocation above 33000 bytes", "DESIGN.md §4 C20"),
